@@ -1252,17 +1252,16 @@ the Boolean-mask stores become `if`s, `table[i]` is a lookup in the live module'
 
 The equalities hold for EVERY `Scalar` instance — over ℝ (what the theorems above are about) and at `Float` (what the driver
 executes).  They are not `rfl`: the source writes the result with two masked updates (`P[m & x] *= …; P[~m & x] *= …`, and
-`h[x] = …; h[~x] = inf` on an `empty_like` array) where the model writes nested `if x … if m …`; the two shapes are identified
+`h[x] = …; h[~x] = inf` on an `empty_like` array, which the translator reads as `where(x, …, inf)`: stores under a mask and
+then under its negation define the array everywhere) where the model writes nested `if x … if m …`; the two shapes are identified
 by case analysis on the two Booleans only, every arithmetic sub-term being identical (`rfl` in each of the four cases). -/
 
 /-- `pressure.us_std_atm_pressure_from_altitude` as translated from the source equals the model on the regenerated table -/
 theorem src_pressureFromAltitudeA {α : Type} [Scalar α] (z inf : α) :
     Gen.Src.C19.pressureFromAltitudeA z inf = pressureFromAltitude (Gen.AtmConsts.layers inf) z := by
   unfold Gen.Src.C19.pressureFromAltitudeA
-  extract_lets z1 x h1 h2 i0 i1 i2 i3 i4 i5 i6 i7 Pb P Lm m Tb Hb P1 P2
-  have hh2 : (if x then geopotential (Gen.AtmConsts.layers inf) z else inf) = h2 := by
-    show _ = (if (!x) = true then inf else if x = true then _ else _)
-    cases x <;> rfl
+  extract_lets z1 x h2 i0 i1 i2 i3 i4 i5 i6 i7 Pb P Lm m Tb Hb P1 P2
+  have hh2 : (if x then geopotential (Gen.AtmConsts.layers inf) z else inf) = h2 := rfl
   have hR : pressureFromAltitude (Gen.AtmConsts.layers inf) z
       = if x then pressureInLayer (Gen.AtmConsts.layers inf)
             (layerOfHeight (Gen.AtmConsts.layers inf) (if x then geopotential (Gen.AtmConsts.layers inf) z else inf))
@@ -1279,11 +1278,11 @@ theorem src_pressureFromAltitudeA {α : Type} [Scalar α] (z inf : α) :
 theorem src_altitudeFromPressureA {α : Type} [Scalar α] (P inf : α) :
     Gen.Src.C19.altitudeFromPressureA P inf = altitudeFromPressure (Gen.AtmConsts.layers inf) P := by
   unfold Gen.Src.C19.altitudeFromPressureA
-  extract_lets P1 i0 i1 i2 i3 i4 i5 i6 i7 Hb H Lm m x Tb Pb H1 H2 z z1
-  show (if (!x) = true then inf else if x = true then
+  extract_lets P1 i0 i1 i2 i3 i4 i5 i6 i7 Hb H Lm m x Tb Pb H1 H2 z
+  show (if x = true then
         (_ * (if (!m && x) = true then (if (m && x) = true then H + _ else H) + _ else (if (m && x) = true then H + _ else H)))
           / (_ - (if (!m && x) = true then (if (m && x) = true then H + _ else H) + _ else (if (m && x) = true then H + _ else H)))
-        else _)
+        else inf)
       = if x then geometric (Gen.AtmConsts.layers inf) (if m then H + _ else H + _) else inf
   clear_value m x
   cases x <;> cases m <;> rfl
